@@ -3,7 +3,7 @@
 demonstration fails with it and passes without it.  Writes seeded/<id>/{patch.diff, demo files, meta.json}."""
 import json, os, re, shutil, subprocess, sys, glob
 
-ST = "/verif/seeded/staging"
+ST = os.environ.get("SEED_STAGING", "/verif/seeded/staging")
 WT = "/tmp/sv"
 ENV = dict(os.environ, CARGO_TARGET_DIR="/tmp/sv_target", CARGO_NET_OFFLINE="true")
 
@@ -54,7 +54,7 @@ def main():
         results[d] = res
         print(d, json.dumps(res), flush=True)
         sh("git reset -q --hard && git clean -fdq")
-    json.dump(results, open("/verif/work/seed_verification.json", "w"), indent=1)
+    json.dump(results, open(os.environ.get("SEED_VERIF_OUT", "/verif/work/seed_verification.json"), "w"), indent=1)
 
 
 if __name__ == "__main__":
